@@ -296,3 +296,69 @@ func HarnessC06_Cluster() {
 	_ = fmt.Sprint
 	vfCover("c06-cluster-done")
 }
+
+// HarnessC06_Queue: updates queued for gossip on one node are superseded only
+// by updates that contain them: after any sequence of acknowledged updates over
+// two keys, one gossip round hands out, for every acknowledged put, a message
+// of the same key that contains it.
+func init() { vfRegisterBubble("HarnessC06_Queue", HarnessC06_Queue) }
+
+func HarnessC06_Queue() {
+	vfSetNow(vfEpoch + 100)
+	wc := &vfWireCodec{}
+	nd := vfClusterNode(2, wc)
+	keys := []string{"k1", "k2"}
+	names := []string{"a", "b"}
+	type ack struct {
+		key, name string
+		ts        int64
+	}
+	var acks []ack
+	for s := 0; s < vfParam("updates", 2); s++ {
+		key := keys[vfChoice("key", 2)]
+		name := names[vfChoice("name", 2)]
+		ts := vfI64("ts")
+		vfAssume(vfAnd(ts >= 1, ts <= 1000))
+		err := nd.kv.CAS(context.Background(), key, wc, func(in interface{}) (interface{}, bool, error) {
+			cur := &vfLWW{m: map[string]vfEntry{}}
+			if in != nil {
+				cur = in.(*vfLWW)
+			}
+			cur.m[name] = vfEntry{ts: ts}
+			return cur, false, nil
+		})
+		if err == nil {
+			acks = append(acks, ack{key, name, ts})
+		}
+	}
+	msgs := nd.kv.GetBroadcasts(0, 1<<20)
+	type sent struct {
+		key string
+		val *vfLWW
+	}
+	var out []sent
+	for _, m := range msgs {
+		var p KeyValuePair
+		vfAssert(p.Unmarshal(m) == nil, "C06 queued messages are well-formed")
+		v, err := wc.Decode(p.Value)
+		vfAssert(err == nil, "C06 queued messages are decodable")
+		out = append(out, sent{p.Key, v.(*vfLWW)})
+	}
+	for _, a := range acks {
+		covered := false
+		for _, o := range out {
+			if o.key != a.key {
+				continue
+			}
+			if e, ok := o.val.m[a.name]; ok {
+				covered = vfOr(covered, e.ts >= a.ts)
+			}
+		}
+		vfAssert(covered, "C06 a queued update is superseded only by an update of the same key that contains it: every acknowledged update is handed to the next gossip round")
+	}
+	close(nd.kv.shutdown)
+	nd.kv.NamedService.StopAsync()
+	_ = nd.kv.NamedService.AwaitTerminated(context.Background())
+	vfQuiesce()
+	vfCover("c06-queue-done")
+}
